@@ -136,6 +136,8 @@ def sym_attr(I, o, name):
             I.unsupported("str.%s on a symbolic string" % name)
         I.raise_(AttributeError("'str' object has no attribute '%s'" % name))
     tp = pytype(o)
+    if isinstance(o, SymFloat) and name == "is_integer":
+        return lambda: True          # a SymFloat is by construction the exact image of an integer (values.py)
     if hasattr(tp, name):
         I.unsupported("%s.%s on a symbolic value" % (tp.__name__, name))
     I.raise_(AttributeError("'%s' object has no attribute '%s'" % (tp.__name__, name)))
